@@ -76,6 +76,28 @@ def snap (s : St) (nd nip nh np : Nat) : String :=
   "d:" ++ ",".intercalate d ++ " l:" ++ ",".intercalate l ++ " e:" ++ ",".intercalate e ++
     " h:" ++ ",".intercalate h ++ " p:" ++ ",".intercalate pr ++ " v:" ++ ",".intercalate dv
 
+def showBytes (l : List Nat) : String :=
+  if l.isEmpty then "-" else ".".intercalate (l.map toString)
+
+open Agd.ProfileCache in
+def showAddr : Addr → String
+  | .zero => "zero"
+  | .v4 b => "v4 " ++ showBytes b
+  | .v6 b z => "v6 " ++ showBytes b ++ " " ++ showBytes z
+
+open Agd.ProfileCache in
+/-- One address as a device's linked IP, its only dedicated IP and a profile's custom blocking IP,
+written to the cache and read back. -/
+def addrThroughCache (a : Addr) : String :=
+  let d : Agd.ProfileCache.Device :=
+    { auth := { enabled := false, dohOnly := false, pw := .allow }, id := 1, linked := a,
+      name := 1, human := 0, dedicated := [a], filtering := true }
+  match deviceFromPb (deviceToPb d), bmFromPb (bmToPb (.customIP [a] [a])) with
+  | some d', some (.customIP v4 v6) =>
+    showAddr d'.linked ++ " | " ++ " , ".intercalate (d'.dedicated.map showAddr) ++ " | " ++
+      " , ".intercalate ((v4 ++ v6).map showAddr)
+  | _, _ => "err"
+
 def look (s : St) (r : Res × List Cleanup) : St × String :=
   ({ s with pending := s.pending ++ r.2 }, showRes r.1 ++ s!" {r.2.length}")
 
@@ -134,6 +156,16 @@ def step (s : St) : List String → St × String
     -- a custom limiter built with any `Enabled` (which `NewDefaultRatelimiter` ignores) through the cache
     (s, match Agd.ProfileCache.ratelimiterFromPb (Agd.ProfileCache.ratelimiterToPb (.default [] 1)) with
       | .global => "global" | .default _ _ => "default")
+  | "addr" :: bytes =>
+    -- netip: UnmarshalBinary of the bytes, and MarshalBinary of the result
+    (s, match Agd.ProfileCache.Addr.unmarshal (bytes.map nat!) with
+      | none => "err"
+      | some a => showAddr a ++ " | " ++ showBytes a.marshal)
+  | "rtaddr" :: bytes =>
+    -- the address backendpb makes of the bytes, through the file cache
+    (s, match Agd.ProfileCache.Addr.unmarshal (bytes.map nat!) with
+      | none => "err"
+      | some a => addrThroughCache a)
   | ["load", v, np, nd] =>
     (s, match Agd.ProfileCache.loadDecision (nat! v) (nat! np) (nat! nd) with
       | .loaded => "loaded" | .versionIgnored => "version" | .emptyIgnored => "empty")
